@@ -73,6 +73,8 @@ type Case struct {
 	// Race != nil: not a history but a run of the concurrent engine (race_test.go) with these parameters
 	Race *RaceParams `json:"race,omitempty"`
 	Ops  []Op        `json:"ops"`
+	// Hang != nil: a run of the liveness engine (hang_test.go) with these parameters
+	Hang *HangParams `json:"hang,omitempty"`
 	// Scale != nil: a generated large-class history (scale_test.go) with these parameters
 	Scale *ScaleParams `json:"scale,omitempty"`
 	// Pipe != nil: a whole-instance scenario for the product model Inhibitor x Group (pipe_test.go)
@@ -1199,6 +1201,8 @@ func TestCheck(t *testing.T) {
 		}
 		if c.Pipe != nil {
 			// handled by the pipeline part below
+		} else if c.Hang != nil {
+			judgeHang(t, run, *c.Hang)
 		} else if c.Race != nil {
 			judgeRace(t, run, *c.Race)
 		} else {
@@ -1241,8 +1245,10 @@ func TestCheck(t *testing.T) {
 	if env.Replay == "" {
 		// concurrent engine: real Puts of conflicting versions racing on all cores against a running inhibitor
 		judgeRace(t, run, racePlan(env))
+		// liveness engine (worker process + watchdog): Mutes keeps answering while the source caches are collected
+		judgeHang(t, run, hangPlan(env))
 	}
-	if err := run.Finish("random rule sets (1-3 rules over sev/cluster/inst/zone, equal lists incl. labels missing on one side; one third of the cases: 2-3 equal labels with values that collide under concatenation) and histories of Put (fresh, refreshed with varied end times, resolved, no end), time passing (time-outs), inhibitor GC ticks, provider GC, restarts of the subscriber generation (inhibitor + a dispatcher-like second subscriber) with updates arriving during the load, subscriber lifecycles over several generations with provider GC in between, over 3-6 label sets sharing equal-values; after every op Mutes+marker for every label set, cache/index content, MuteStage; plus a judged concurrent engine outside synctest (2-4 goroutines Put conflicting versions of the same source alerts at once in large batches against a running inhibitor and plain subscribers, one slow; afterwards every subscriber's last delivered version is the stored one and the running inhibitor agrees with a fresh one loaded from the provider and with the rule over the provider's unresolved alerts); non-trivial = some label set muted and some not muted during the history; distinct by full history text"); err != nil {
+	if err := run.Finish("random rule sets (1-3 rules over sev/cluster/inst/zone, equal lists incl. labels missing on one side; one third of the cases: 2-3 equal labels with values that collide under concatenation) and histories of Put (fresh, refreshed with varied end times, resolved, no end), time passing (time-outs), inhibitor GC ticks, provider GC, restarts of the subscriber generation (inhibitor + a dispatcher-like second subscriber) with updates arriving during the load, subscriber lifecycles over several generations with provider GC in between, over 3-6 label sets sharing equal-values; after every op Mutes+marker for every label set, cache/index content, MuteStage; plus a judged concurrent engine outside synctest (2-4 goroutines Put conflicting versions of the same source alerts at once in large batches against a running inhibitor and plain subscribers, one slow; afterwards every subscriber's last delivered version is the stored one and the running inhibitor agrees with a fresh one loaded from the provider and with the rule over the provider's unresolved alerts) and a liveness engine in a worker process under a watchdog (goroutines hammering Mutes in real time while virtual time drives the rule caches' 15-minute GC with resolved sources to collect); non-trivial = some label set muted and some not muted during the history; distinct by full history text"); err != nil {
 		t.Fatal(err)
 	}
 	pipePart(t, env)
